@@ -49,6 +49,8 @@ TNext ==
      ELSE LET ev == Ev(l) IN
        CASE ev.a = "Arrive" -> /\ q' = Append(q, Frame(ev.cls, ev.t, ev.id)) /\ l' = l + 1
                                /\ UNCHANGED <<cut, csub, suball, connected, st, bad>>
+         [] ev.a = "Reconnect" -> /\ q' = <<>> /\ cut' = "open" /\ csub' = {} /\ suball' = FALSE /\ connected' = TRUE /\ l' = l + 1
+                                  /\ UNCHANGED <<st, bad>>
          [] ev.a = "Cut" -> /\ cut' = ev.kind /\ l' = l + 1 /\ UNCHANGED <<q, csub, suball, connected, st, bad>>
          [] ev.a = "Sub" ->
               /\ CASE ev.op = "sub" -> csub' = csub \cup {ev.t} /\ UNCHANGED suball
